@@ -1,5 +1,5 @@
 use ignore::gitignore::Gitignore;
-use std::path::Path;
+use std::path::{Component, Path, PathBuf};
 
 /// The name of the ignore file that sqruff will look for in the root of the project and use to
 /// determine which files to ignore.
@@ -26,18 +26,33 @@ impl IgnoreFile {
         }
     }
 
+    /// The location `path` denotes seen from the root of the ignore file, with `.` and `..`
+    /// resolved lexically: `./temp/a.sql`, `sub/../temp/a.sql` and `<root>/temp/a.sql` are
+    /// the same file.
+    fn located(&self, path: &Path) -> PathBuf {
+        let mut located = PathBuf::new();
+        for component in self.ignore.path().join(path).components() {
+            match component {
+                Component::CurDir => {}
+                Component::ParentDir => {
+                    located.pop();
+                }
+                other => located.push(other),
+            }
+        }
+        located
+    }
+
     /// Check if the given path should be ignored.
     pub(crate) fn is_ignored(&self, path: &Path) -> bool {
         let is_dir = path.is_dir();
-        // Patterns are relative to the root of the ignore file.
-        let relative = path.strip_prefix("./").unwrap_or(path);
-        let relative = relative
-            .strip_prefix(self.ignore.path())
-            .unwrap_or(relative);
-        if relative.has_root() {
+        // Patterns are relative to the root of the ignore file, and they are about the file a
+        // path denotes, however the path is written (`sub/../temp/a.sql` is `temp/a.sql`).
+        let located = self.located(path);
+        let Ok(relative) = located.strip_prefix(self.ignore.path()) else {
             // Outside of the root there are no parents to check.
             return self.ignore.matched(path, is_dir).is_ignore();
-        }
+        };
         // As in gitignore, a path is ignored when it or one of its parent directories is
         // (e.g. `temp/` ignores every file below any directory named temp).
         relative
